@@ -1,0 +1,24 @@
+//go:build verif
+
+// Machine-checked contracts for package quote (comment-only; read by /verif's govc).
+
+package quote
+
+//@ extern strconv UnquoteChar
+//@ pure
+//@ ensures err == nil ==> len(tail) < len(s) && value >= 0 && value <= 1114111
+//@ extern unicode/utf8 EncodeRune
+//@ requires len(p) >= 4
+//@ modifies p[0:4]
+//@ ensures result >= 1 && result <= 4
+
+// Bunquote (C17): a decoded value is emitted as ONE byte exactly when it is a byte value — an ASCII character
+// or a byte escape (\xNN, \NNN: not 'multibyte') — and as its UTF-8 encoding otherwise; so bytes >= 0x80 that
+// were written as UTF-8 sequences come back as the same sequences. Errors return the input unchanged.
+//@ func Bunquote
+//@ flag skip frame
+//@ ensures[empty] len(b) == 0 ==> result0 == b && err == nil
+//@ ensures[error] err != nil ==> result0 == b
+//@ before append#0 assert[onebyte] c < 128 || !multibyte
+//@ before EncodeRune#0 assert[utf8] c >= 128 && multibyte
+//@ loop 0 decreases len(s)
